@@ -25,6 +25,7 @@ import tempfile
 from hypothesis import strategies as st
 
 from vlib.cham import run
+from vlib.fuzz import FuzzStage
 from vlib.harness import Check, Mismatch, Part
 
 # python codec, names under which a document may announce it, sample text
@@ -298,6 +299,7 @@ CHECK = Check(
           "non-trivial = non-UTF-8 encoding or BOM, with at least one "
           "non-ASCII character; distinct by sha1 of the case"),
     parts=[Bytes()],
+    stages=[FuzzStage("checks.c17", "bytes", 20000)],
     assumptions=[
         "documents are self-consistent (announced = actual encoding)",
         "an XML declaration without encoding combined with a meta charset "
